@@ -310,6 +310,10 @@ def slist_method(eng, bm, obj, name, args, kwargs, node):
         new = SList(obj.t, obj.n - 1, [z3.Lambda([k], z3.If(k < j, c[k], c[k + 1])) for c in obj.comps])
         _wb(eng, bm, new)
         return None
+    if name == "reverse" and not args:
+        i = z3.Int("_rv")
+        _wb(eng, bm, SList(obj.t, obj.n, [z3.Lambda([i], c[obj.n - 1 - i]) for c in obj.comps]))
+        return None
     if name == "index" and len(args) == 1 and len(obj.comps) == 1:
         # first position holding the value (ValueError if there is none)
         x = args[0]
